@@ -21,6 +21,13 @@ def universe(kind, nfr, rng):
         ("shrunk", lambda j: ([0, 500 + j, cps("k"), nfr - 1], resized(kind, "k", nfr, nfr - 1, j))),
         ("regrown", lambda j: ([0, 600 + j, cps("r"), nfr], resized(kind, "r", nfr - 1, nfr, j))),
         ("int", lambda j: ([1, 7], 7)),
+    ]
+    if kind == "EM" and nfr > 1:
+        # an EMG track whose samples are a 1 x n ROW vector (what scipy.io.loadmat returns): one sample long, n elements
+        import numpy as np
+        from basictdf.tdfEMG import EMGTrack
+        u.append(("rowvec", lambda j: ([0, 700 + j, cps("v"), 1], EMGTrack("v", (np.arange(nfr, dtype="<f4") + j).reshape(1, nfr)))))
+    u += [
         ("none", lambda j: ([3], None)),
         ("str", lambda j: ([2, cps("g0")], "g0")),
         ("foreign", lambda j: ([4, 1], api.make_item(other, "g0", nfr, j))),
